@@ -143,26 +143,7 @@ private:
     {
         for( std::size_t x = 0; x < this->_scanline_length; ++x )
         {
-            for( uint32_t k = 0; ; )
-            {
-                int ch = this->_io_dev.getc_unchecked();
-
-                if( isdigit( ch ))
-                {
-                    _text_buffer[ k++ ] = static_cast< char >( ch );
-                }
-                else if( k )
-                {
-                    _text_buffer[ k ] = 0;
-                    break;
-                }
-                else if( ch == EOF || !isspace( ch ))
-                {
-                    return;
-                }
-            }
-
-            int value = atoi( _text_buffer );
+            unsigned int const value = this->read_text_sample();
 
             if( this->_info._max_value == 1 )
             {
@@ -182,23 +163,7 @@ private:
     {
         for( std::size_t x = 0; x < this->_scanline_length; ++x )
         {
-            for( uint32_t k = 0; ; )
-            {
-                int ch = this->_io_dev.getc_unchecked();
-
-                if( isdigit( ch ))
-                {
-                    k++;
-                }
-                else if( k )
-                {
-                    break;
-                }
-                else if( ch == EOF || !isspace( ch ))
-                {
-                    return;
-                }
-            }
+            this->read_text_sample();
         }
     }
 
@@ -227,8 +192,6 @@ private:
     }
 
 private:
-
-    char _text_buffer[16];
 
     // For bit_aligned images we need to negate all bytes in the row_buffer
     // to make sure that 0 is black and 255 is white.
